@@ -7,6 +7,8 @@ mod print;
 mod run;
 mod scan;
 mod utils;
+#[cfg(ast_grep_verif)]
+pub mod verif;
 mod verify;
 
 use anyhow::Result;
